@@ -10,6 +10,9 @@ record (stdlib ssl, ALPN h2/http1.1), answers CONNECT like a proxy and then serv
 and speaks HTTP/2 when ALPN selects it -- so https destinations are really served and every request head is seen in
 clear by the peer that received it.
 
+Every 4th worker runs the real-handler leg instead (run_handler_leg: real ProxyConnectionHandler.open_connection on the
+virtual-time loop, addon re-addressing connections in `server_connect`, dialled address recorded per socket).
+
 Oracles
   obj     (M1) destination table filled at the `request` hook AFTER the policy's rewrite (host, port, scheme, via,
           transport) vs the attributes of flow.server_conn when the response head arrives (the connection object the
@@ -41,7 +44,7 @@ LEVEL = "exploration"
 ENGINE = "sansio"
 BUDGET = {"quick": (260, 20), "thorough": (12000, 230)}
 WORKERS = {"quick": 4, "thorough": 16}
-REQUIRED = ["obj", "wire", "rewrite.server_conn_replaced", "failed", "failed.flow_conn", "wire.direct", "wire.via_connect", "wire.via_plain", "wire.tls", "attrs", "guard.address", "guard.via", "reuse.same_conn", "fault.connect_failed", "fault.tls_failed", "fault.server_close", "client.h1", "client.h2"]
+REQUIRED = ["handler.cases", "handler.open_conn_address", "handler.request_at_socket", "handler.server_connect_rewrites_address", "handler.readdressed_connection_reused", "obj", "wire", "rewrite.server_conn_replaced", "failed", "failed.flow_conn", "wire.direct", "wire.via_connect", "wire.via_plain", "wire.tls", "attrs", "guard.address", "guard.via", "reuse.same_conn", "fault.connect_failed", "fault.tls_failed", "fault.server_close", "client.h1", "client.h2"]
 TECHNIQUE = "runtime monitoring: sans-io history exploration, destination table at the request hook vs connection attributes at SendData time and peer-side sightings (real TLS / proxy / h2 peers)"
 RULE = (
     "case = (mode, client protocol h1|h2, history of 2-12 requests over <=4 destinations drawn from hosts x ports x scheme x via, "
@@ -62,7 +65,7 @@ LEVEL_TEXT = (
     "with the destination recorded at the request hook, together with the attributes of the connection object at SendData time. "
     "Decides the histories observed; reach comes from small destination universes that force reuse decisions."
 )
-LEVEL_NOTE = "Trusted: vf/sansio.py (driver), vf/gen/c08_peers.py (TLS/proxy/h2 peers on stdlib ssl, python-h2), vf/ref/http1.py."
+LEVEL_NOTE = "Trusted: vf/c08handler.py + vf/vloop.py (virtual-time loop, in-memory sockets) for the real-handler leg; vf/sansio.py (driver), vf/gen/c08_peers.py (TLS/proxy/h2 peers on stdlib ssl, python-h2), vf/ref/http1.py."
 
 TAG = re.compile(rb"t\d+-[0-9a-f]{6}")
 HOSTS = ["h0.test", "h1.test", "h2.test"]
@@ -542,7 +545,85 @@ def run_case(ctx, tctx, chain):
     return sig, distinct >= 2 and reuse_opp >= 1 and n_forwarded >= 1, sample
 
 
+def run_handler_leg(ctx):
+    """Real-handler leg (engine B, vf/c08handler.py): the same HttpLayer inside the real ProxyConnectionHandler on virtual time, so
+    that ConnectionHandler.open_connection -- which turns the Server object into a socket -- is mitmproxy's own code.  An addon
+    re-addresses some still-closed connections in `server_connect` (documented use); the fake asyncio.open_connection records the
+    (host, port) actually dialled per socket and every socket records the request heads it received.
+      handler.open_conn_address   connection.address == dialled address for every connection at server_connected
+      handler.request_at_socket   every request head is received by the socket of the connection object its flow carries, that
+                                  socket was dialled to the address the connection object carries, and that address is the request's
+                                  destination (or, for the request that created a connection the hook re-addressed, the hook's choice)"""
+    from vf import c08handler as H
+
+    for i in ctx.cases():
+        r = ctx.rng
+        plan = H.gen_plan(r)
+        try:
+            res = H.run_plan(plan)
+        except Exception as e:  # noqa
+            ctx.violation("harness-or-handler-crash", {"leg": "handler", "plan": plan, "exc": repr(e)})
+            ctx.case(("handler", "crash"), False)
+            continue
+        if res.deadlock:
+            ctx.count("handler.never_ended")
+            ctx.case(("handler", "never-ended"), False)
+            continue
+        ctx.count("handler.cases")
+        witness = {"leg": "handler", "plan": plan, "dialled": [(x["dialled"], x["how"], [t for t in x["tags"]]) for x in res.sockets],
+                   "server_connect_hooks": [(b, a) for _, b, a in res.connect_hooks], "hooks": res.hook_names()[:60]}
+        changed = {cid: (b, n) for cid, b, n in res.rewritten if b != n}
+        for _cid, b, n in res.rewritten:
+            ctx.count("handler.server_connect_rewrites_address" if b != n else "handler.server_connect_assigns_same_address")
+        by_sock = {}
+        for sconn, addr, peer, sockname in res.connected:
+            ctx.count("handler.open_conn_address")
+            k = sockname[1] - 20000
+            dialled = res.sockets[k]["dialled"]
+            by_sock[k] = (sconn, addr)
+            if addr != dialled or tuple(sconn.address) != dialled:
+                ctx.violation("connection-address-differs-from-dialled-address", {**witness, "socket": k, "connection_address": addr, "dialled": dialled,
+                              "address_before_server_connect_hook": [b for c_, b, a in res.connect_hooks if c_ is sconn]}, None)
+        reused = False
+        forwarded = 0
+        for k, rec in enumerate(res.sockets):
+            for j, tag in enumerate(rec["tags"]):
+                ctx.count("handler.request_at_socket")
+                forwarded += 1
+                problems = []
+                dst = res.dest.get(tag)
+                if dst is None:
+                    problems.append("request on the wire without request hook")
+                u = res.used.get(tag)
+                if u is not None:
+                    if u[2] != rec["sockname"]:
+                        problems.append(f"flow.server_conn (sockname {u[2]}) is not the connection of the socket that received the request ({rec['sockname']})")
+                    if u[1] != rec["dialled"]:
+                        problems.append(f"flow.server_conn.address {u[1]} != dialled address {rec['dialled']} of the socket that received the request")
+                if k in by_sock and dst is not None:
+                    sconn, caddr = by_sock[k]
+                    allowed = {caddr}
+                    if j == 0 and id(sconn) in changed:
+                        allowed.add(changed[id(sconn)][0])  # the request the connection was created for, before the hook re-addressed it
+                    if tuple(dst) not in allowed:
+                        problems.append(f"request for {dst} written to the connection for {caddr}")
+                    if rec["dialled"] != caddr:
+                        problems.append(f"socket dialled to {rec['dialled']} but its connection object says {caddr}")
+                    if j >= 1 and id(sconn) in changed:
+                        reused = True
+                if problems:
+                    ctx.violation("request-written-to-socket-of-other-destination", {**witness, "tag": tag, "destination": dst, "socket": k, "dialled": rec["dialled"], "problems": problems}, None)
+        if reused:
+            ctx.count("handler.readdressed_connection_reused")
+        kinds = tuple(sorted({"same" if v == "same" else "other" for k_, v in plan["rewrite"].items() if k_ < len(res.sockets)}))
+        sig = ("handler", len(plan["requests"]), plan["pipelined"], kinds, len(res.sockets), reused, bool(plan["rewrite_delay"]))
+        ctx.case(sig, bool(changed) and forwarded >= 2, {"leg": "handler", "requests": [(t, h, p) for t, h, p, _ in plan["requests"]], "rewrite": {str(k_): v for k_, v in plan["rewrite"].items()},
+                                                        "dialled": [x["dialled"] for x in res.sockets]})
+
+
 def run(ctx):
+    if ctx.worker % 4 == 3:
+        return run_handler_leg(ctx)
     tctx, addons = sansio.addon_context(TlsConfig)
     ta = addons[2]
     chain = [addons[1], TlsStartOnly(ta)]
